@@ -128,6 +128,9 @@ def back (s : FStr) : Res Byte := get1 s.buf (if s.len = 0 then 0 else s.len - 1
 def str (s : FStr) : Res Str := if s.len > 0 then Mem.read s.buf 0 s.len "str" else .ok []
 /-- what a reader of `c_str()` sees: the bytes before the first NUL -/
 def cstrView (s : FStr) : Res Str := bindR (cstrlen s.buf) fun n => Mem.read s.buf 0 n
+/-- what `operator<<` writes after the repair of audit-3 weakness 1 (`os << std::string_view( fs.data(), fs.length())`):
+    the `mLength` bytes from the start of the buffer, stored NULs included (before: `os << fs.c_str()`, `cstrView`) -/
+def streamView (s : FStr) : Res Str := Mem.read s.buf 0 s.len "operator<<"
 
 /-! ### iterators: (object, index) pairs; `EndValue` is the maximum of `uint64_t` -/
 
@@ -817,7 +820,7 @@ def step (c cu : Cfg) (w : World) : Op → Res (World × Out)
   | .idx i => obs w (index w.s i) .byte
   | .front => obs w (front w.s) .byte
   | .back => obs w (back w.s) .byte
-  | .stream => obs w (cstrView w.s) .bytes
+  | .stream => obs w (streamView w.s) .bytes
   | .iterFwd => obs w (iterFwd c w.s) .bytes
   | .iterCFwd => obs w (iterFwd c w.s) .bytes
   | .iterRev => obs w (iterRev c w.s) .bytes
@@ -977,8 +980,9 @@ def spec (cl : Nat → Nat) (big : Nat) (w : World) (op : Op) : Res (Str × Out)
   -- the formatted text; when the formatter fails there is no std::string operation to compare with
   -- (`inDomain = false`), the reference printed for the tie is the empty string
   | .sprintfW a wa v b => okS (match fmtW (decimal v) a wa b with | .done t => t | .failed _ => [])
-  | .str | .iterFwd | .iterCFwd => obsv (.bytes x)
-  | .cStr | .data | .stream => obsv (.bytes (StdString.ofCStr x))
+  -- `os << std_string` writes all `size()` characters (embedded NULs included), like `str()`
+  | .str | .iterFwd | .iterCFwd | .stream => obsv (.bytes x)
+  | .cStr | .data => obsv (.bytes (StdString.ofCStr x))
   | .length | .itDist => obsv (.nat x.length)
   | .empty => obsv (.bool x.isEmpty)
   | .atI i | .cat i | .itDeref i => bindR (StdString.at_ x i) fun b => obsv (.byte b)
